@@ -341,6 +341,9 @@ pub fn gen_scenario(seed: u64, cfg: &GenCfg) -> Scenario {
     let big = rng.chance(1, 10);
     let (max_e, max_l) = match (cfg.thorough, big) {
         (false, false) => (6, 3),
+        // C18: tables beyond 256 entries (run lengths, byte counters and block
+        // boundaries of a compact durable form only exist from 9 edges on)
+        (false, true) if cfg.flavor == Flavor::C18 && rng.chance(1, 2) => (10, 4),
         (false, true) => (8, 4),
         (true, false) => (8, 4),
         (true, true) => (10, 5),
@@ -398,12 +401,20 @@ pub fn gen_scenario(seed: u64, cfg: &GenCfg) -> Scenario {
         }]);
     } else if big_burst {
         let n = if cfg.thorough { 4000 } else { 1500 };
-        clients.push(vec![Op::Burst {
+        let mut ops = vec![Op::Burst {
             seed: rng.next(),
             n,
             ed: workload::gen_edge_data(&mut rng, &main.spec),
             st: Settings::plain(),
-        }]);
+        }];
+        if c18 {
+            // the large table also goes through a seeded restart (format, read
+            // behaviour, in place or fresh) and is sampled afterwards
+            ops.push(gen_restart(&mut rng, &main));
+            ops.push(probe.clone());
+            ops.push(Op::ImageCheck);
+        }
+        clients.push(ops);
     } else if kind < 60 || c18 && kind < 85 {
         // A: mixed threaded
         let nc = rng.range(if c18 { 1 } else { 2 }, 4) as usize;
